@@ -24,6 +24,7 @@ HARNESS = {
     "h1": (["h1.cc"], True, ""),
     "fn": (["fn.cc"], True, ""),
     "verif_cmd": (["verif_cmd.cc"], False, ""),
+    "argv": (["argv.cc"], False, ""),
 }
 
 
